@@ -415,6 +415,12 @@ def c02_merge(inp):
         nrov = [int(rng.randint(0, 6)) for _ in range(S)]
         ntot = nref + sum(nrov)
         G = rng.randn(ntot, nm) + (1j * rng.randn(ntot, nm) if cplx else 0)
+        # every seventh layout: shapes stored losslessly as INTEGERS (hand-typed / integer-coded shapes) with integer factors per setup - the
+        # merged shape in the first setup's scale is not integer-valued in general and must not be truncated
+        ints = trial % 7 == 3
+        if ints:
+            G = rng.randint(-6, 7, size=(ntot, nm)).astype(float)
+            G[G == 0] = 1.0
         MS, refl, rows = [], [], list(range(nref))
         off = nref
         cfac = np.empty((S, nm))
@@ -427,7 +433,13 @@ def c02_merge(inp):
             sens[rovpos] = np.arange(off, off + nrov[s_])
             off += nrov[s_]
             cfac[s_] = rng.choice([-1, 1], nm) * np.exp(rng.uniform(np.log(0.05), np.log(20), nm))
-            MS.append(G[sens, :] * cfac[s_][None, :])
+            if ints:
+                cfac[s_] = rng.choice([-1, 1], nm) * rng.choice([1, 2, 4], nm)
+                G[sens[rovpos], :] = G[sens[rovpos], :] / np.abs(cfac[s_])[None, :]        # stored exactly as integers by THIS setup
+                MS.append(np.rint(G[sens, :] * cfac[s_][None, :]).astype(np.int64))
+                assert np.array_equal(MS[-1], G[sens, :] * cfac[s_][None, :])
+            else:
+                MS.append(G[sens, :] * cfac[s_][None, :])
             refl.append([int(p) for p in pos])
             rows += [int(x) for x in sens[rovpos]]
         tried += 1
@@ -441,7 +453,7 @@ def c02_merge(inp):
             if got.shape == want.shape:
                 d = np.argwhere(~np.isclose(got, want, rtol=1e-8, atol=1e-10))
                 bad = [int(x) for x in d[0]]
-            return {"reproduced": True, "detail": f"merge_mode_shapes differs from c[0]*G: setups={S}, Nref={nref}, ref_ind={refl}, "
+            return {"reproduced": True, "detail": f"merge_mode_shapes differs from c[0]*G{' (integer-dtype shapes)' if ints else ''}: setups={S}, Nref={nref}, ref_ind={refl}, "
                                                   f"factors(mode0)={np.round(cfac[:, 0], 3).tolist()}, first bad cell {bad}: got "
                                                   f"{got[tuple(bad)] if bad else got.shape}, want {want[tuple(bad)] if bad else want.shape}"}
     return {"reproduced": False, "detail": f"merge_mode_shapes equals the global shape in the first setup's scale on {tried} random layouts"}
@@ -1585,12 +1597,14 @@ def c15_poser(inp):
             if variant == 2:
                 n_names += int(rng.choice([-1, 1]))
             n_names = max(n_names, 0)
+            # "one name per algorithm" counts names, not distinct names: every third assignment repeats a name (['n0', 'n1', 'n0'], ['n0', 'n0'])
+            dup_mod = max(n_names - 1, 1) if rng.rand() < 0.34 else max(n_names, 1)
             setups = [build(t, s_) for t, s_ in zip(combo, states)]
             valid = (len(combo) >= 2 and all(len(t) >= 1 for t in combo) and all(t == combo[0] for t in combo)
                      and n_names == len(combo[0]) and all(x == 2 for s_ in states for x in s_))
             n_checked += 1
             try:
-                ms = MultiSetup_PoSER(ref_ind=[[0]] * max(len(combo), 1), single_setups=setups, names=[f"n{i}" for i in range(n_names)])
+                ms = MultiSetup_PoSER(ref_ind=[[0]] * max(len(combo), 1), single_setups=setups, names=[f"n{i % dup_mod}" for i in range(n_names)])
                 if not valid:
                     return {"reproduced": True, "detail": f"PoSER accepted invalid inputs: class lists {combo}, states {states}, {n_names} names"}
                 if list(ms.setups) != setups:
